@@ -661,6 +661,21 @@ class Inexpressible(Exception):
     pass
 
 
+def argv_opts(argv, fields):
+    """[level, option key] of every option of a rendered command line: the level changes at each subcommand token"""
+    out = []
+    level = ""
+    cur = fields
+    for a in argv:
+        if a.startswith("--"):
+            out.append([level, a[2:].split("=")[0]])
+        else:
+            s = sub_of(cur)
+            level += a + ":"
+            cur = dict((c, f) for c, f in s[1]["choices"])[a] if s and a in dict((c, f) for c, f in s[1]["choices"]) else []
+    return out
+
+
 def render_argv(rng, fields, kvs, prefix=""):
     """the configuration as command-line arguments of the parser built from `fields`"""
     args = []
@@ -1097,6 +1112,12 @@ def process_case(ctx: Ctx, case: Case, muts, channels_per_mut, tmpdir, stats):
     rng = ctx.rng
     # --- the parser the harness built is the parser the spec describes
     rt, st = table_of_real(case.parser), table_of_spec(case.fields)
+    try:
+        mt = ctx.driver("Validate", [{"op": "spec", "fields": case.wire, "load": []}, {"op": "table"}])[1]
+        st = sorted([d, sorted("--" + o for o in opts), kind, req] for d, opts, kind, req in mt)     # the MODEL's flatten
+    except MachineryError as ex:
+        if ctx.lean_ok:
+            raise
     ctx.count()
     if rt != st:
         diff = [x for x in rt if x not in st][:3], [x for x in st if x not in rt][:3]
@@ -1112,6 +1133,7 @@ def process_case(ctx: Ctx, case: Case, muts, channels_per_mut, tmpdir, stats):
             raise
         ctx.tie_break("correspondence Validate not runnable (model does not build)", str(ex)[:500])
         model = [None] * len(cfgs)
+    argv_cases = []
     for mut, cfg, mres in zip(all_muts, cfgs, model):
         fid = finding_of(mut)
         # ---- object channel: model correspondence + oracle
@@ -1142,6 +1164,8 @@ def process_case(ctx: Ctx, case: Case, muts, channels_per_mut, tmpdir, stats):
                     if os.environ.get("C06_DEBUG"):
                         with open(os.environ["C06_DEBUG"], "a") as f:
                             f.write(json.dumps({"d": d, "mut": case.ph(mut) if mut else None, "model": mres, "real": list(res[:3]), "cfg": case.ph(cfg), "base": case.ph(case.cfg), "spec": case.ph(case.fields)}, default=repr) + "\n")
+            if ch == "argv" and mres is not None and len(res) > 2 and not (mut is not None and mut["kind"] == "scalar-group"):
+                argv_cases.append((mut, cfg, res))      # (`--g=3` is loaded as a config by the whole-group option: a different input)
             dev = oracle_judge(mut, res)
             if dev is None:
                 if mut is not None:
@@ -1153,6 +1177,40 @@ def process_case(ctx: Ctx, case: Case, muts, channels_per_mut, tmpdir, stats):
             what = ("valid configuration: " if mut is None else "mutation %s at %s: " % (mut["kind"], ".".join(map(str, mut["path"])))) + dev
             ctx.violation("[%s] %s" % (ch, what), replay)
             stats["violations"] += 1
+    check_argv_model(ctx, case, argv_cases, stats)
+
+
+def check_argv_model(ctx, case, argv_cases, stats):
+    """the model's argv channel (option table + validate) vs the real parse_args on the rendered command lines"""
+    if not argv_cases:
+        return
+    lines = [{"op": "spec", "fields": case.wire, "load": []}]
+    for mut, cfg, res in argv_cases:
+        lines.append({"op": "argv", "opts": argv_opts(res[2], case.fields), "cfg": wire_val(cfg)})
+    try:
+        out = ctx.driver("Validate", lines)[1:]
+    except MachineryError:
+        if ctx.lean_ok:
+            raise
+        return
+    for (mut, cfg, res), m in zip(argv_cases, out):
+        ctx.count()
+        d = None
+        if m.get("r") == "ok" and res[0] != "ok":
+            # `--k=null` for a non-Optional argument is a type error on the command line only; nulls are not rendered
+            d = "model (argv) accepts, code rejects: %s" % (str(res[1])[:200],)
+        elif m.get("r") == "err" and res[0] == "ok":
+            d = "model (argv) rejects (%s %s), code accepts" % (m.get("kind"), m.get("rel", m.get("arg")))
+        elif m.get("r") == "err" and m.get("kind") == "unrecognized" and res[0] == "err" and not (
+                ("Unrecognized arguments" in res[1] or "invalid choice" in res[1]) and ("--" + m.get("arg", "")) in res[1]):
+            # (an option whose text contains a space is taken by argparse as a positional: "invalid choice" when a subcommand is expected)
+            d = "model says unrecognized argument %s, code says %r" % (m.get("arg"), res[1][:200])
+        elif m.get("r") == "err" and m.get("kind") != "unrecognized" and res[0] == "err" and "Unrecognized arguments" in res[1]:
+            d = "code says %r, the model's table knows every option" % (res[1][:200],)
+        if d is not None:
+            stats["disagree"] += 1
+            ctx.tie_break("correspondence Validate (parseArgv vs parse_args) disagrees: " + d[:200],
+                          json.dumps({"argv": case.ph(res[2]), "mut": case.ph(mut) if mut else None, "model": m, "cfg": case.ph(cfg), "spec": case.ph(case.fields)}, default=repr)[:1900])
 
 
 def known_text(fid, mut):
